@@ -65,7 +65,7 @@ def main():
                 continue
             try:
                 fired = {}
-                todo = pids if allc else sorted(set([meta["property"]] + meta.get("expect", [])))
+                todo = pids if (allc or meta.get("benign")) else sorted(set([meta["property"]] + meta.get("expect", [])))
                 for pid in todo:
                     env = dict(os.environ, VERIF_OUT=out)
                     c = sh("python3", os.path.join(VERIF, "engine", "check.py"), pid, tier, env=env)
@@ -77,11 +77,15 @@ def main():
             finally:
                 sh("git", "-C", REPO, "checkout", "--", ".")
             results[name] = fired
-            exp = meta.get("expect", [meta["property"]])
-            missing = [p for p in exp if p not in fired]
-            status = "caught" if not missing else "MISSED by %s" % ",".join(missing)
-            if missing and not meta.get("out_of_reach"):
-                bad += 1
+            if meta.get("benign"):
+                status = "silent" if not fired else "FALSE ALARM"
+                bad += 1 if fired else 0
+            else:
+                exp = meta.get("expect", [meta["property"]])
+                missing = [p for p in exp if p not in fired]
+                status = "caught" if not missing else "MISSED by %s" % ",".join(missing)
+                if missing and not meta.get("out_of_reach"):
+                    bad += 1
             print("%-12s %-8s %s" % (name, meta["property"], status))
             for pid, keys in fired.items():
                 print("      %s fires: %s" % (pid, "; ".join(keys[:6]) + (" ..." if len(keys) > 6 else "")))
